@@ -236,3 +236,25 @@ func TestKF11OpenInfofEmptyTemplate(t *testing.T) {
 	}
 	t.Logf("KF-11: Infof(\"\", 1) logs %q, fmt.Sprintf(\"\", 1) is %q", got, want)
 }
+
+// KF-16 is an OPEN finding (recorded, not repaired).
+func TestKF16OpenEpochEncodersOverflow(t *testing.T) {
+	far := time.Date(3000, 1, 2, 3, 4, 5, 6, time.UTC)
+	for name, te := range map[string]zapcore.TimeEncoder{"epoch": zapcore.EpochTimeEncoder, "millis": zapcore.EpochMillisTimeEncoder, "nanos": zapcore.EpochNanosTimeEncoder, "nil": nil} {
+		cfg := jsonCfg()
+		cfg.EncodeTime = te
+		buf, err := zapcore.NewJSONEncoder(cfg).EncodeEntry(zapcore.Entry{Message: "m"}, []zapcore.Field{zap.Time("t", far)})
+		if err != nil {
+			t.Fatal(err)
+		}
+		var m map[string]any
+		if err := json.Unmarshal(buf.Bytes(), &m); err != nil {
+			t.Fatal(err)
+		}
+		got, _ := m["t"].(float64)
+		if got > 0 {
+			t.Fatalf("KF-16 no longer reproduces for %s (t=%v): update known_findings.json", name, m["t"])
+		}
+		t.Logf("KF-16 [%s]: year-3000 time is emitted as %v (true seconds since epoch: %d)", name, m["t"], far.Unix())
+	}
+}
